@@ -31,6 +31,10 @@ var registry = map[string]reflect.Type{
 	"IX":     reflect.TypeOf(fam.IX{}),
 	"IY":     reflect.TypeOf(fam.IY{}),
 	"DElems": reflect.TypeOf(fam.DElems{}),
+	"DIn":    reflect.TypeOf(fam.DIn{}),
+	"DEmp":   reflect.TypeOf(fam.DEmp{}),
+	"WBase":  reflect.TypeOf(fam.WBase{}),
+	"Wide":   reflect.TypeOf(fam.Wide{}),
 }
 
 // generated New...WithDefaultValues constructors (they exist only for records that declare a default themselves)
@@ -38,4 +42,6 @@ var constructors = map[string]interface{}{
 	"Dflt":   fam.NewDfltWithDefaultValues,
 	"DOuter": fam.NewDOuterWithDefaultValues,
 	"DElems": fam.NewDElemsWithDefaultValues,
+	"DIn":    fam.NewDInWithDefaultValues,
+	"DEmp":   fam.NewDEmpWithDefaultValues,
 }
